@@ -142,6 +142,17 @@ Theorem C06_reward_spec_bounded : forall castor proposers validators,
 Proof. exact reward_weights_bounded. Qed.
 Print Assumptions C06_reward_spec_bounded.
 
+(* ... and exactly T - every credit accounted - whenever both stake totals are positive and no group member is paid to an
+   account that also gathers a proposer share (the code ASSIGNS validator shares, so only that overlap loses part of T).
+   [proposers] and [validators] list one (account, stake) entry per MINER: arbitrary, not necessarily injective,
+   miner -> account maps (several validators paid to one account add up per account AND in the denominator). *)
+Theorem C06_reward_spec_exact : forall castor proposers validators,
+  stakes_nonneg proposers -> stakes_nonneg validators -> 0 < sum_snd proposers -> 0 < sum_snd validators ->
+  (forall a, In a (map fst validators) -> a <> castor /\ ~ In a (map fst proposers)) ->
+  sum_snd (reward_weights castor proposers validators) = reward_weight_total proposers validators.
+Proof. exact reward_weights_exact. Qed.
+Print Assumptions C06_reward_spec_exact.
+
 (* History version: the only source of new tokens over any sequence of operations is the scheduled rewards. *)
 Theorem C06_history : forall U ops l, universe U -> Forall (op_closed U) ops -> Forall op_wf ops ->
   nonneg l -> sched_ok U (sched l) ->
